@@ -19,6 +19,7 @@ import (
 func init() {
 	vfRegister("VfC17_hasResult", VfC17_hasResult)
 	vfRegister("VfC17_hasResultsCache", VfC17_hasResultsCache)
+	vfRegister("VfC17_hasResultsCache2", VfC17_hasResultsCache2)
 	vfRegister("VfC17_getResponseHasEntries", VfC17_getResponseHasEntries)
 	vfRegister("VfC17_errorCounts", VfC17_errorCounts)
 	vfRegister("VfC17_recvStatus", VfC17_recvStatus)
@@ -196,6 +197,39 @@ func VfC17_hasResultsCache() {
 		}
 	}
 	vfAssert(vfImplies(vfAnd(unique, present), !cacheFailed), "C17:HasResultsCache-agrees-with-HasResult-on-unique-keys")
+	vfReach("end")
+}
+
+// VfC17_hasResultsCache2: TWO wanted results (of any shapes: with / without details, any kinds) against 0-1
+// results: the cached checker passes only if EVERY want is present (each judged by its own fields), and
+// passes when all are present and keys are unique.
+func VfC17_hasResultsCache2() {
+	n := vfInt("n", 0, 1)
+	var ds []*vfRes
+	var res []*client.OpResult
+	for i := 0; i < n; i++ {
+		d := vfSymRes("r", vfAllKinds)
+		ds = append(ds, d)
+		res = append(res, d.result())
+	}
+	ws := []*vfRes{vfSymRes("want", vfAllKinds), vfSymRes("want", vfAllKinds)}
+	opts, ignoreID, includeSE := vfOptions()
+	if ignoreID {
+		vfAssume(vfAnd(ws[0].hasDet, ws[1].hasDet))
+	}
+	cacheFailed := vfFails(func(t testing.TB) {
+		HasResultsCache(t, res, []*client.OpResult{ws[0].result(), ws[1].result()}, opts...)
+	})
+	all := true
+	for _, w := range ws {
+		present := false
+		for _, d := range ds {
+			present = vfOr(present, vfMatches(d, w, ignoreID, includeSE))
+		}
+		all = vfAnd(all, present)
+	}
+	vfAssert(vfImplies(!cacheFailed, all), "C17:HasResultsCache-never-passes-for-an-absent-result")
+	vfAssert(vfImplies(all, !cacheFailed), "C17:HasResultsCache-agrees-with-HasResult-on-unique-keys")
 	vfReach("end")
 }
 
